@@ -308,7 +308,12 @@ class TTMatrix:
             inv_cores.append(torch.unsqueeze(core_inv, -1))
 
         # NOTE: ranks will be computed based on cores shape
-        return TTMatrix(inv_cores, None, self.input_dims, self.output_dims)
+        return TTMatrix(
+            inv_cores,
+            [1] * (self.d - 1),
+            self.input_dims.tolist(),
+            self.output_dims.tolist(),
+        )
 
     def cholesky(self):
         """
@@ -331,10 +336,15 @@ class TTMatrix:
             else:
                 core_cho = torch.linalg.cholesky(self.cores[core_idx][0, :, :, 0])
                 core_cho = torch.unsqueeze(core_cho, 0)
-            core_cho.append(torch.unsqueeze(core_cho, -1))
+            cho_cores.append(torch.unsqueeze(core_cho, -1))
 
         # NOTE: ranks will be computed based on cores shape
-        return TTMatrix(cho_cores, None, self.input_dims, self.output_dims)
+        return TTMatrix(
+            cho_cores,
+            [1] * (self.d - 1),
+            self.input_dims.tolist(),
+            self.output_dims.tolist(),
+        )
 
 
 class CPMatrix:
